@@ -274,12 +274,14 @@ def new_functions(fns, ref):
 #     dest = Result::map(res, clo)        ->   match res { Ok(x)  => dest = Ok(clo(x)),    Err(e) => dest = Err(e) }
 #     dest = Result::map_err(res, clo)    ->   match res { Err(e) => dest = Err(clo(e)),   Ok(x)  => dest = Ok(x) }
 #     dest = Result::and_then(res, clo)   ->   match res { Ok(x)  => dest = clo(x),        Err(e) => dest = Err(e) }
+#     dest = Result::or_else(res, clo)    ->   match res { Err(e) => dest = clo(e),        Ok(x)  => dest = Ok(x) }
 _COMB = {
     "core::option::Option::<T>::map": ("core::option::Option", 1, "Some", 0, "None", "wrap"),
     "core::option::Option::<T>::and_then": ("core::option::Option", 1, "Some", 0, "None", "flat"),
     "core::result::Result::<T, E>::map": ("core::result::Result", 0, "Ok", 1, "Err", "wrap"),
     "core::result::Result::<T, E>::map_err": ("core::result::Result", 1, "Err", 0, "Ok", "wrap"),
     "core::result::Result::<T, E>::and_then": ("core::result::Result", 0, "Ok", 1, "Err", "flat"),
+    "core::result::Result::<T, E>::or_else": ("core::result::Result", 1, "Err", 0, "Ok", "flat"),
 }
 
 
